@@ -1948,6 +1948,32 @@ def unroll_loops(repo, f, counter):
             if isinstance(st, ast.Try):
                 for h in st.handlers:
                     h.body = rewrite(h.body)
+            if isinstance(st, ast.For) and len(st.body) == 1 and isinstance(st.body[0], ast.If) and not st.body[0].orelse and st.body[0].body \
+                    and isinstance(st.body[0].body[-1], ast.Break) \
+                    and not any(isinstance(x, (ast.Break, ast.Continue)) for b in st.body[0].body[:-1] for x in ast.walk(b)):
+                # for ROW in TABLE: if C(ROW): B(ROW); break   [else: E]     (a dispatch over a constant table: the first row whose test holds)
+                #   ->   if C(r1): B(r1)  elif C(r2): B(r2) ..  else: E
+                rows = _rows(repo, f, st.iter)
+                binds = [_bind_target(st.target, r[0]) for r in rows] if rows else None
+                tnames = {x.id for x in ast.walk(st.target) if isinstance(x, ast.Name)}
+                inner_if = st.body[0]
+                if rows and all(b is not None for b in binds) and len(rows) <= 8 and not (tnames & _stored(inner_if.body)) \
+                        and not any(isinstance(x, ast.Name) and x.id in tnames for s2 in (st.orelse or []) for x in ast.walk(s2)):
+                    after_reads = False
+                    outside = names_outside(f.node, st)
+                    if tnames & outside:
+                        after_reads = True          # the loop variables are read after the loop: keep the loop
+                    if not after_reads:
+                        chain = None
+                        for consts in reversed(binds):
+                            test_ = _Sub(consts, {}).visit(copy.deepcopy(inner_if.test))
+                            body_ = [_Sub(consts, {}).visit(copy.deepcopy(b)) for b in inner_if.body[:-1]] or [ast.Pass()]
+                            orelse_ = [chain] if chain is not None else [copy.deepcopy(x) for x in (st.orelse or [])]
+                            chain = ast.copy_location(ast.If(test=test_, body=body_, orelse=orelse_), st)
+                        ast.fix_missing_locations(chain)
+                        out.append(chain)
+                        changed[0] = True
+                        continue
             if isinstance(st, ast.For) and not st.orelse and not any(isinstance(x, ast.Break) for b in st.body for x in ast.walk(b)):
                 # (a `return` in the body leaves the function from the copy it is in, exactly as it leaves the loop)
                 rows = _rows(repo, f, st.iter)
@@ -2323,8 +2349,11 @@ def propagate_record_locals(repo, f):
         if not all(_cheap(v) or _const(v) for v in vals.values()):
             # name the arguments that are not plain names / paths first (evaluated where they were, in argument order), then read fields
             # through those names on the next round
-            if any(isinstance(x, (ast.Yield, ast.YieldFrom, ast.Await, ast.NamedExpr, ast.Lambda)) for v in vals.values() for x in ast.walk(v)):
-                continue
+            def closed_lambda(l_):
+                ps_ = {p_.arg for p_ in l_.args.posonlyargs + l_.args.args + l_.args.kwonlyargs}
+                return not l_.args.vararg and not l_.args.kwarg and all(not isinstance(y, ast.Name) or y.id in ps_ for y in ast.walk(l_.body))
+            if any(isinstance(x, (ast.Yield, ast.YieldFrom, ast.Await, ast.NamedExpr)) or (isinstance(x, ast.Lambda) and not closed_lambda(x)) for v in vals.values() for x in ast.walk(v)):
+                continue            # (a lambda over its own parameters only - a sort key - can be evaluated a statement earlier)
             owner = None
             for n_ in ast.walk(f.node):
                 for fld in ("body", "orelse", "finalbody"):
@@ -2424,7 +2453,9 @@ def propagate_record_locals(repo, f):
                 e_ = PS().visit(copy.deepcopy(body_[0].value))
                 if ok_ and not any(isinstance(x, ast.Name) and x.id == sname for x in ast.walk(e_)) \
                         and not any(isinstance(x, (ast.Yield, ast.Await, ast.Lambda)) or (isinstance(x, ast.Call) and not (
-                            isinstance(x.func, ast.Name) and x.func.id == "len" and len(x.args) == 1 and not x.keywords)) for x in ast.walk(e_)):
+                            (isinstance(x.func, ast.Name) and x.func.id in ("len", "str") and len(x.args) == 1 and not x.keywords)
+                            or (U(x.func) in ("os.path.join", "os.path.basename", "os.path.dirname") and not x.keywords
+                                and not any(isinstance(a_, ast.Starred) for a_ in x.args)))) for x in ast.walk(e_)):
                     props[pname] = e_
 
         class RW(ast.NodeTransformer):
@@ -4480,6 +4511,15 @@ def flatten_nested_zips(fnode, counter):
 
 
 
+def record_defaults_exist(repo, mod, name):
+    """does the record class give any field a default (then a shorter starred iterable would also construct it)"""
+    from .normalize import record_defaults
+    try:
+        return bool(record_defaults(repo, mod, name))
+    except Exception:
+        return True
+
+
 def unstar_record_constructions(repo, f, counter):
     """t = K(*call(..))   with K a plain NamedTuple / dataclass record of n fields   ->   t__r0, .., t__r{n-1} = call(..); t = K(t__r0, ..)
     (both forms fail unless the call returns exactly n items), so that the record's fields are the items of the call's result"""
@@ -4495,14 +4535,17 @@ def unstar_record_constructions(repo, f, counter):
                 if isinstance(sub, list) and sub and isinstance(sub[0], ast.stmt) and not isinstance(st, (ast.FunctionDef, ast.AsyncFunctionDef, ast.ClassDef)):
                     setattr(st, fld, rewrite(sub))
             if isinstance(st, ast.Assign) and len(st.targets) == 1 and isinstance(st.targets[0], ast.Name) and isinstance(st.value, ast.Call) and isinstance(st.value.func, ast.Name) \
-                    and len(st.value.args) == 1 and not st.value.keywords and isinstance(st.value.args[0], ast.Starred) and isinstance(st.value.args[0].value, ast.Call):
+                    and len(st.value.args) >= 1 and not st.value.keywords and isinstance(st.value.args[-1], ast.Starred) and isinstance(st.value.args[-1].value, ast.Call) \
+                    and all(_cheap(a_) or _const(a_) for a_ in st.value.args[:-1]):
+                # (leading plain arguments, then the starred call: K(a, b, *call(..)) - the call supplies the remaining fields)
                 fields = record_fields(repo, f.mod, st.value.func.id, allow_methods=True)
-                if fields:
+                lead = list(st.value.args[:-1])
+                if fields and len(lead) < len(fields) and not record_defaults_exist(repo, f.mod, st.value.func.id):
                     k = counter[0]
                     counter[0] += 1
-                    names = [f"{st.targets[0].id}__r{k}_{i}" for i in range(len(fields))]
-                    unpack = ast.Assign(targets=[ast.Tuple(elts=[ast.Name(id=n_, ctx=ast.Store()) for n_ in names], ctx=ast.Store())], value=st.value.args[0].value, lineno=st.lineno, col_offset=0)
-                    build = ast.Assign(targets=st.targets, value=ast.Call(func=st.value.func, args=[ast.Name(id=n_, ctx=ast.Load()) for n_ in names], keywords=[]), lineno=st.lineno, col_offset=0)
+                    names = [f"{st.targets[0].id}__r{k}_{i}" for i in range(len(fields) - len(lead))]
+                    unpack = ast.Assign(targets=[ast.Tuple(elts=[ast.Name(id=n_, ctx=ast.Store()) for n_ in names], ctx=ast.Store())], value=st.value.args[-1].value, lineno=st.lineno, col_offset=0)
+                    build = ast.Assign(targets=st.targets, value=ast.Call(func=st.value.func, args=lead + [ast.Name(id=n_, ctx=ast.Load()) for n_ in names], keywords=[]), lineno=st.lineno, col_offset=0)
                     ast.fix_missing_locations(unpack)
                     ast.fix_missing_locations(build)
                     out += [unpack, build]
